@@ -170,7 +170,10 @@ def check(tier, seed):
         if not refs:
             continue
         r = rng.choice(refs)
-        bogus = 'zz_missing_%d' % j
+        # mostly a fresh name; now and then a reserved name that belongs to ANOTHER kind of reference (NO_COMPU_METHOD where an input
+        # quantity stands, ...): each convention holds for its own sites only, anywhere else such a name is a missing target
+        foreign = [x for x in sorted(S['special_names']) if x not in r.entry.get('special', [])]
+        bogus = rng.choice(foreign) if (foreign and rng.random() < 0.35) else 'zz_missing_%d' % j
         R.corrupt(node, r, bogus)
         t = P.render(node, rng)
         import copy
@@ -327,6 +330,7 @@ def check(tier, seed):
                 'kind': 'CHECK', 'text': documents[j][2] if j is not None else table_bad[0]['text'],
                 'model_only': mismatches[0][1] if mismatches else None, 'implementation_only': mismatches[0][2] if mismatches else None,
                 'documents_differing': len(mismatches),
+                'classes_differing': sorted(set(documents[m[0]][0] for m in mismatches if not isinstance(m[0], tuple)))[:20],
                 'table_mismatches': [{k: x[k] for k in ('instance', 'table_says_checked', 'reports_per_reference', 'observed')} for x in table_bad[:10]]},
                 no_input=not mismatches and not table_bad)
     return v.finish('proof')
